@@ -36,7 +36,14 @@ def finding_key(o):
     diff = set()
     for a, b in zip(o.get("snaps") or [], o.get("twin_snaps") or []):
         for k in a:
-            if k != "mem_last" and a.get(k) != b.get(k):
+            if k == "extra":
+                # the further facade queries: only the legacy-migration listings may differ in this class
+                ea, eb = a.get("extra") or [], b.get("extra") or []
+                if len(ea) != len(eb) or any(x["q"] != y["q"] for x, y in zip(ea, eb)):
+                    diff.add("extra")
+                else:
+                    diff.update("extra:" + x["q"] for x, y in zip(ea, eb) if x["d"] != y["d"] and not x["q"].startswith("legacy/"))
+            elif k != "mem_last" and a.get(k) != b.get(k):
                 diff.add(k)
     if len(o.get("snaps") or []) != len(o.get("twin_snaps") or []):
         diff.add("count")
